@@ -242,6 +242,34 @@ def rejected_acquire_changes_nothing(ctx):
     ctx.ob(init, 'defaultdict attributes of the semaphore', True, f'{sorted(dd)}', trivial=True)
 
 
+@rule('C12.j', ['C12', 'C11', 'C04'], floor=1)
+def acquire_changes_state_only_after_the_tag_was_looked_up(ctx):
+    """acquire() can still fail after the capacity test - the tag is used as a dictionary key
+    (an unhashable tag raises TypeError).  No bookkeeping may be changed before the first
+    look-up with the tag has succeeded: every store to the semaphore's state in acquire is
+    dominated by a read of a per-tag table with that tag.  Otherwise a failing acquire
+    keeps a unit of capacity (or a token) that nobody will ever release."""
+    f = ctx.func(f'{SWS}.acquire')
+    g = ctx.cfg(f)
+    tagp = f.params[1]
+    lookups = [n for n in own_nodes(f.node) if isinstance(n, ast.Subscript) and isinstance(n.ctx, ast.Load) and norm(n.slice) == tagp
+               and norm(n.value).startswith('self._') and not isinstance(n._parent, ast.AugAssign)]
+    # an augmented assignment X[tag] += 1 reads before it writes: it is its own look-up
+    muts = []
+    for n in own_nodes(f.node):
+        if isinstance(n, ast.AugAssign) and (dotted(n.target) or norm(n.target)).startswith('self._'):
+            muts.append(n)
+        elif isinstance(n, ast.Assign) and any((dotted(t) or norm(t)).startswith('self._') for t in n.targets):
+            muts.append(n)
+    ctx.need(muts and lookups, 'acquire: state updates / tag look-ups not recognised')
+    ln = [x for l in lookups for x in g.nodes_of(l)]
+    for m in muts:
+        own_lookup = isinstance(m, ast.AugAssign) and isinstance(m.target, ast.Subscript) and norm(m.target.slice) == tagp
+        ok = own_lookup or any(g.dominates(a, b, g.NORMAL) for a in ln for b in g.nodes_of(m) if a is not b)
+        ctx.ob(f, f'{short(m, 50)} happens after a look-up with the tag succeeded', ok,
+               'this update precedes the first use of the tag as a key: if that use raises (unhashable tag) the acquire fails but the update stays')
+
+
 @rule('C12.h', ['C12', 'C13', 'C04', 'C11'], floor=1)
 def nothing_decided_before_a_wait_is_used_after_it(ctx):
     """A Condition.wait() gives the lock up: whatever a function read from the shared state
@@ -284,3 +312,94 @@ def nothing_decided_before_a_wait_is_used_after_it(ctx):
         ctx.ob(f, f'{f.qualname}: no state read before {norm(waits[0].func)}() is used after it', not bad,
                f'stale across the wait: {bad}; the lock is released while waiting, so the decision must be re-made after waking')
     ctx.need(n >= 1, 'no function waits on a condition any more: re-confirm C12.c (who blocks, who wakes) and retire this rule')
+
+
+@rule('C12.i', ['C12', 'C11', 'C04'], floor=6)
+def window_arithmetic_is_paired(ctx):
+    """The arithmetic of the sliding window, read off acquire/release as pairing rules:
+    acquire waits / refuses exactly while the free count is zero; every advance of a tag's
+    lowest unreleased token (+1) sits in the same block as one return of a permit (+1), is
+    guarded by an equality between that lowest token and the token being retired - the one
+    passed in, or the one peeked from the pending list, which is then popped from the same
+    end - and the pending list is kept sorted so that the end that is peeked holds its
+    smallest element."""
+    a = ctx.func(f'{SWS}.acquire')
+    # 1. the refusal and the wait are taken exactly when there is no capacity
+    zero_forms = ('self._count == 0', 'self._count <= 0', 'self._count < 1', 'not self._count')
+    waits = [c for c in own_calls(a.node) if isinstance(c.func, ast.Attribute) and c.func.attr == 'wait']
+    for w in waits:
+        lp = q.in_loop(w)
+        ok = isinstance(lp, ast.While) and any(q.equivalent(lp.test, z) for z in zero_forms)
+        ctx.ob(a, f'wait while {norm(lp.test) if isinstance(lp, ast.While) else "?"}', ok, 'an acquirer must wait exactly while the free count is zero: a different threshold wastes a permit '
+               '(with a window of 1 nothing is ever granted) or hands out one that does not exist')
+    for r in [n for n in own_nodes(a.node) if isinstance(n, ast.Raise) and n.exc is not None and 'NoResourcesAvailable' in norm(n.exc)]:
+        gs = q.guards(r)
+        ok = any(q.guards_imply(gs, z) for z in zero_forms[:1]) or any(q.guards_imply(gs, z) for z in zero_forms[1:])
+        ctx.ob(a, 'non-blocking refusal only at zero capacity', ok, f'guards {[(norm(e), p) for e, p in gs]}')
+    # 2. first-seen initialisation of the lowest token
+    inits = [n for n in own_nodes(a.node) if isinstance(n, ast.Assign) and any(norm(t).startswith('self._lowest_sequence[') for t in n.targets)]
+    for n in inits:
+        gs = q.guards(n)
+        val = q.resolve_local(a, n.value)
+        seqs = q.names_defined_by(a, lambda v: norm(v).startswith('self._tag_sequences['))
+        okv = norm(val) in ('0',) or norm(val).startswith('self._tag_sequences[') or (isinstance(n.value, ast.Name) and n.value.id in seqs)
+        okg = any(q.guards_imply(gs, f'{s_} == 0') for s_ in seqs + ['self._tag_sequences[tag]']) or q.guards_imply(gs, f'{a.params[1]} not in self._lowest_sequence')
+        ctx.ob(a, n, okv and okg, 'the lowest unreleased token of a tag starts at its first token (0), exactly when the tag is seen for the first time')
+    r = ctx.func(f'{SWS}.release')
+    tagp, tokp = r.params[1], r.params[2]
+    tok_names = {tokp} | set(q.names_defined_by(r, lambda v: isinstance(v, ast.Name) and v.id == tokp))
+    adv = [n for n in own_nodes(r.node) if isinstance(n, ast.AugAssign) and norm(n.target).startswith('self._lowest_sequence[')]
+    ctx.need(adv, 'release no longer advances the lowest unreleased token')
+    peeks = []
+    for n in adv:
+        blk = q.containing_block(n)
+        ok1 = isinstance(n.op, ast.Add) and isinstance(n.value, ast.Constant) and n.value.value == 1
+        mates = [m for m in blk if isinstance(m, ast.AugAssign) and dotted(m.target) == 'self._count']
+        ok2 = len(mates) == 1 and isinstance(mates[0].op, ast.Add) and isinstance(mates[0].value, ast.Constant) and mates[0].value.value == 1
+        ctx.ob(r, f'{norm(n)} is paired with self._count += 1 in the same block', ok1 and ok2,
+               'every token that leaves the window gives back exactly one permit: unpaired, the free count drifts away from count - window')
+        # the equality that licenses the advance
+        lic = None
+        for e, pol in q.guards(n):
+            for x in ast.walk(e) if isinstance(e, ast.AST) else []:
+                if isinstance(x, ast.Compare) and len(x.ops) == 1 and ((isinstance(x.ops[0], ast.Eq) and pol) or (isinstance(x.ops[0], ast.NotEq) and not pol and x is e)):
+                    sides = [x.left, x.comparators[0]]
+                    # (the lowest token may have been read into a local first)
+                    low = [s_ for s_ in sides if norm(q.resolve_local(r, s_)).startswith('self._lowest_sequence[')]
+                    oth = [s_ for s_ in sides if not norm(q.resolve_local(r, s_)).startswith('self._lowest_sequence[')]
+                    if low and oth:
+                        fresh = True
+                        if isinstance(low[0], ast.Name):
+                            # a local copy of the lowest token is only as good as long as nothing advanced the token since it was read
+                            ds = q.local_defs(r, low[0].id)
+                            fresh = len(ds) == 1 and not any(ds[0][0]._pos < a_._pos < x._pos for a_ in adv) \
+                                and not any(isinstance(lp_, (ast.While, ast.For)) and any(a_ is y for a_ in adv for y in ast.walk(lp_)) and not any(ds[0][0] is y for y in ast.walk(lp_))
+                                            for lp_ in own_nodes(r.node) if any(x is y for y in ast.walk(lp_)))
+                        if fresh:
+                            lic = oth[0]
+        if lic is None:
+            ctx.ob(r, f'{norm(n)} is licensed by lowest == <token retired>', False, 'the lowest token may advance only past the token that is being retired')
+            continue
+        if isinstance(lic, ast.Name) and lic.id in tok_names:
+            ctx.ob(r, f'{norm(n)} is licensed by lowest == {norm(lic)} (the released token)', True, '')
+        elif isinstance(lic, ast.Subscript):
+            peeks.append((n, lic, blk))
+            ctx.ob(r, f'{norm(n)} is licensed by lowest == {norm(lic)} (the pending token peeked)', True, '')
+        else:
+            ctx.ob(r, f'{norm(n)} is licensed by lowest == {norm(lic)}', False, 'the token compared with is neither the released one nor the next pending one')
+    for n, lic, blk in peeks:
+        lst = norm(lic.value)
+        idx = norm(lic.slice)
+        pops = [c for m in blk for c in ast.walk(m) if isinstance(c, ast.Call) and isinstance(c.func, ast.Attribute) and c.func.attr == 'pop' and norm(c.func.value) == lst]
+        popidx = (norm(pops[0].args[0]) if pops[0].args else '-1') if len(pops) == 1 else None
+        ctx.ob(r, f'the pending token peeked at [{idx}] is the one popped', len(pops) == 1 and popidx == idx,
+               f'peeked {lst}[{idx}] but popped {popidx}: the token that licensed the advance stays pending / another one is dropped')
+        # sorted so that the peeked end is the minimum
+        sorts = [c for c in own_calls(r.node) if isinstance(c.func, ast.Attribute) and c.func.attr == 'sort']
+        rev = None
+        if len(sorts) == 1:
+            kv = q.argn(sorts[0], 'reverse', None)
+            rev = isinstance(kv, ast.Constant) and kv.value is True
+        want = {'-1': True, '0': False}.get(idx)
+        ctx.ob(r, f'pending tokens kept sorted with the smallest at [{idx}]', len(sorts) == 1 and want is not None and rev == want,
+               'the next token to retire is the smallest pending one: with the list sorted the other way round larger tokens are looked at first and the window never closes')
